@@ -282,8 +282,10 @@ def register_finalize2(reg):
   runs = '(%s is not None and not %s.is_aborted and not %s.is_repeat and not %s.is_skip)'
   c.ensures('diagnosers_all_run_or_none',
             "ghost('diag_calls') == old(ghost('diag_calls')) or ghost('diag_calls') == old(ghost('diag_calls')) + len(self.diagnosers)")
+  # (an invocation whose SKIP / REPEAT result is replaced by a validator exception during finalization is an ERROR
+  # invocation, not a skipped one: the clause is about results that are still in place when the diagnosers are reached)
   c.ensures('no_diagnosers_for_skip_repeat_or_missing_result',
-            "implies(%s is None or %s or %s, ghost('diag_calls') == old(ghost('diag_calls')))" % (r0, kind0('REPEAT'), kind0('SKIP')))
+            "implies((%s is None or %s or %s) and %s is %s, ghost('diag_calls') == old(ghost('diag_calls')))" % (r0, kind0('REPEAT'), kind0('SKIP'), res, r0))
   c.ensures('record_closed', '%s.end_time_millis is not None and %s.options is self.options and %s.measurements is self.measurements' % (rec, rec, rec))
   c.ensures('nothing_left_partially_set', 'all(m.outcome is not measurements.Outcome.PARTIALLY_SET for m in self.measurements.values())')
   c.modifies('Measurement.outcome', 'Measurement.marginal', 'Measurement._notification_cb', res, rec + '.measurements', rec + '.outcome',
